@@ -40,7 +40,7 @@ func c27Gen(r *core.Rand, tier string) any {
 	sc := &c27Scenario{Seed: r.Uint64()}
 	sc.Filter = cdcFilters[r.Intn(len(cdcFilters))]
 	sc.IDsOnly = r.Bool(0.2)
-	g := newCdcGenState(r)
+	g := cdcNewGenState(r)
 	n := r.Range(12, 40)
 	for i := 0; i < n; i++ {
 		x := r.Intn(100)
@@ -86,7 +86,7 @@ func c27Run(c *core.Ctx, raw json.RawMessage) {
 		c.Discard("boot-failed: " + err.Error())
 		return
 	}
-	sh, err := newCdcShadow(c.Dir, sc.Filter, sc.IDsOnly)
+	sh, err := cdcNewShadow(c.Dir, sc.Filter, sc.IDsOnly)
 	if err != nil {
 		panic(err)
 	}
@@ -155,19 +155,19 @@ func c27Run(c *core.Ctx, raw json.RawMessage) {
 			nReq++
 			c.Log.Add("%d req idx=%d tx=%v stmts=%d -> %d groups (want %d) stmt-errors=%d", opn, idx, op.Tx, len(op.Stmts), len(got), len(want), se)
 			// render what rqlite produced with the real marshaller, decode as a consumer would
-			var gotMsgs []dMsg
+			var gotMsgs []cdcDMsg
 			if len(got) > 0 {
 				b, err := cdcjson.MarshalToEnvelopeJSON("", n.ID, false, got)
 				if err != nil {
 					c.Violate("marshal-error", "op %d (index %d): marshalling the event groups failed: %v", opn, idx, err)
 					return
 				}
-				if _, gotMsgs, err = decodeEnvelope(b); err != nil {
+				if _, gotMsgs, err = cdcDecodeEnvelope(b); err != nil {
 					c.Violate("marshal-error", "op %d (index %d): envelope is not valid JSON: %v", opn, idx, err)
 					return
 				}
 			}
-			var gotAll, wantAll []xEvent
+			var gotAll, wantAll []cdcXEvent
 			for _, m := range gotMsgs {
 				gotAll = append(gotAll, m.Events...)
 			}
@@ -197,22 +197,22 @@ func c27Run(c *core.Ctx, raw json.RawMessage) {
 					return
 				}
 			}
-			if !sameIdents(gotAll, wantAll) {
-				if se > 0 && !op.Tx && len(gotAll) > len(wantAll) && identSubsequence(wantAll, gotAll) {
+			if !cdcSameIdents(gotAll, wantAll) {
+				if se > 0 && !op.Tx && len(gotAll) > len(wantAll) && cdcIdentSubsequence(wantAll, gotAll) {
 					// Every row change the request made is reported, in order, but so are
 					// changes of a statement of the same request that failed and was rolled
 					// back. Remember it and keep checking the rest of the run: any other
 					// class of violation takes precedence.
 					if deferred == "" {
-						deferred = fmt.Sprintf("%s: events [%s] but the request changed only rows [%s]; the extra events belong to a statement that failed and was rolled back", desc, identsOf(gotAll), identsOf(wantAll))
+						deferred = fmt.Sprintf("%s: events [%s] but the request changed only rows [%s]; the extra events belong to a statement that failed and was rolled back", desc, cdcIdentsOf(gotAll), cdcIdentsOf(wantAll))
 					}
 					c.Probe("rolled_back_changes_reported")
 					continue
 				}
-				c.Violate("event-identity", "%s: events [%s] but the request changed rows [%s]", desc, identsOf(gotAll), identsOf(wantAll))
+				c.Violate("event-identity", "%s: events [%s] but the request changed rows [%s]", desc, cdcIdentsOf(gotAll), cdcIdentsOf(wantAll))
 				return
 			}
-			if ok, why := sameEvents(gotAll, wantAll); !ok {
+			if ok, why := cdcSameEvents(gotAll, wantAll); !ok {
 				c.Violate("event-content", "%s: %s", desc, why)
 				return
 			}
@@ -222,8 +222,8 @@ func c27Run(c *core.Ctx, raw json.RawMessage) {
 				return
 			}
 			for i := range want {
-				if !sameIdents(gotMsgs[i].Events, want[i].Events) {
-					c.Violate("event-grouping", "%s: group %d holds [%s], commit %d changed [%s]", desc, i, identsOf(gotMsgs[i].Events), i, identsOf(want[i].Events))
+				if !cdcSameIdents(gotMsgs[i].Events, want[i].Events) {
+					c.Violate("event-grouping", "%s: group %d holds [%s], commit %d changed [%s]", desc, i, cdcIdentsOf(gotMsgs[i].Events), i, cdcIdentsOf(want[i].Events))
 					return
 				}
 			}
